@@ -78,8 +78,22 @@ def fresh_replay(doc, keep_path=None):
 _JOBSEQ = [0]
 
 
-def run_job(prop, job, active_kf, seed, scratch_root):
+def _not_run(job, why):
+    return dict(verdict='incomplete', paths=0, passed=0, pruned=0, nontrivial=0, validated=0, solver_queries=0,
+                solver_s=0.0, cpu_s=0.0, samples=[], functions=[], exhausted=False, unknown=0, checks=0,
+                disagreements=[], reasons=[why], name=job['name'], job_wall_s=0.0,
+                spec=dict(module=job['module'], func=job['func'], params=job.get('params', {})),
+                bounds=job.get('bounds', ''), budget=job.get('budget', 60.0))
+
+
+def run_job(prop, job, active_kf, seed, scratch_root, deadline=None):
     name = job['name']
+    if deadline is not None:
+        left = deadline - time.time()
+        if left < 15:
+            return _not_run(job, 'not started: tier wall-clock limit reached')
+        if job.get('budget', 60.0) > left:
+            job = dict(job, budget=max(10.0, left - 5))
     _JOBSEQ[0] += 1
     safe = '%04d_' % _JOBSEQ[0] + re.sub(r'[^A-Za-z0-9_.=-]+', '_', name)[:110]
     scratch = os.path.join(scratch_root, safe)
@@ -159,9 +173,12 @@ def check_property(prop, tier, seed=0, only=None, verbose=False):
     order = sorted(range(len(jobs)), key=lambda i: (-jobs[i].get('budget', 60.0), (i * 7919 + seed) % 104729))
     scratch_root = tempfile.mkdtemp(prefix='pv_%s_' % prop)
     results = [None] * len(jobs)
+    # tier wall-clock limit: jobs not started by then (or cut short) are reported incomplete, never as success
+    limit = float(os.environ.get('VERIF_%s_WALL' % tier.upper(), '720' if tier == 'quick' else '2100'))
+    deadline = t_start + limit
     try:
         with concurrent.futures.ThreadPoolExecutor(max_workers=NPROC) as ex:
-            futs = {ex.submit(run_job, prop, jobs[i], active, seed, scratch_root): i for i in order}
+            futs = {ex.submit(run_job, prop, jobs[i], active, seed, scratch_root, deadline): i for i in order}
             for fut in concurrent.futures.as_completed(futs):
                 i = futs[fut]
                 results[i] = fut.result()
